@@ -11,6 +11,7 @@ import (
 	"io"
 	"net/http"
 	"net/url"
+	"strings"
 
 	"github.com/gofrs/uuid"
 	jsoniter "github.com/json-iterator/go"
@@ -131,7 +132,22 @@ func VerifC19Logs() {
 	ids := []string{j1.ID.String(), j2.ID.String(), "c0000000-0000-0000-0000-0000000000ff", "not-a-uuid"}
 	which := verifChoose("request.id", len(ids))
 	taskName := verifString("request.task")
-	vQuery = url.Values{"id": []string{ids[which]}, "task": []string{taskName}}
+	// the id may be spelled in any form the UUID parser accepts; the logs are stored under the
+	// canonical form (what the task runner's JOB ID variable carries)
+	canonical := ids[which]
+	spelled := canonical
+	if which <= 1 {
+		switch verifChoose("request.id-spelling", 4) {
+		case 1:
+			spelled = strings.ToUpper(canonical)
+			verifReach("non-canonical-id")
+		case 2:
+			spelled = "{" + canonical + "}"
+		case 3:
+			spelled = "urn:uuid:" + canonical
+		}
+	}
+	vQuery = url.Values{"id": []string{spelled}, "task": []string{taskName}}
 	w := &vRespWriter{header: http.Header{}}
 	srv.jobLogs(w, &http.Request{URL: &url.URL{}})
 
@@ -158,7 +174,7 @@ func VerifC19Logs() {
 		verifAssert(w.status == http.StatusOK, "C19.own-task-logs-served")
 		verifAssert(len(st.reads) == 2, "C19.both-streams-read")
 		if len(st.reads) == 2 {
-			verifAssert(st.reads[0] == vReadCall{ids[which], taskName, "stdout"} && st.reads[1] == vReadCall{ids[which], taskName, "stderr"}, "C19.logs-read-for-exactly-this-job-task-stream")
+			verifAssert(st.reads[0] == vReadCall{canonical, taskName, "stdout"} && st.reads[1] == vReadCall{canonical, taskName, "stderr"}, "C19.logs-read-for-exactly-this-job-task-stream")
 		}
 		for _, rd := range st.readers {
 			verifAssert(!rd.open, "C19.log-readers-closed")
